@@ -28,14 +28,15 @@ from vf.oracle import cons
 from vf.runner import Violation
 
 EPS = np.finfo(float).eps
-# Tolerance constants (HARNESS rule 2): calibrated on the unchanged tree, seeds 1-5 x 1500 cases; worst observed ratios
-# are given in eps units of the rounding scale `noise` = |M|(|a|+|a0|) + |J|'(|f| + D(|J|(|a|+|a0|)+|aref|)).
-K_GRAD = 2e4      # oracle gradient at a self-declared optimum: worst observed ~2e2 eps
-K_FORCE = 1e4     # efc_force vs oracle force law: worst observed ~1e2 eps of (|f| + D(|J||a|+|aref|))
-K_DATA = 1e3      # problem data (J, aref, R, a0) between storage / island variants: worst observed 0 (bit-identical) .. 4 eps
-K_COST = 1e4      # cost comparisons, in eps units of the sum of the absolute cost terms
+# Tolerance constants (HARNESS rule 2): calibrated on the unchanged tree (quick seeds 1-3, 3 runs at 8x budget, thorough seeds
+# 1,2; ~25000 cases); ratios are in eps units of the rounding scale `noise` = |M|(|a|+|a0|) + |J|'(|f| + D(|J|(|a|+|a0|)+|aref|)).
+K_GRAD = 6e4      # oracle gradient at a self-declared optimum: worst observed 600 eps
+K_FORCE = 1e4     # efc_force vs oracle force law, per solver iteration (J*qacc - aref is updated incrementally): worst observed
+                  # 12 eps for short runs, 8e5 eps after 200 iterations (bound 2e6)
+K_DATA = 1e3      # problem data (J, aref, R, a0, M) between storage / island variants: worst observed 1.8 eps
+K_COST = 1e4      # cost comparisons, in eps units of the sum of the absolute cost terms: worst observed 0.15
 C_REP = 2.0       # slack factor on the reported gradient statistic
-PGS_GAP = 1e-3    # loose relative duality gap of a PGS run that stopped on tolerance 1e-14 (worst observed 2e-7)
+PGS_GAP = 1e-3    # loose relative duality gap of a PGS run that stopped on tolerance 1e-14 (worst observed 7e-6)
 
 
 def trace_scale(P, m):
